@@ -96,7 +96,7 @@ func init() {
 
 // --- e2e: two versions of a workbook through the real GenProto ------------------------------------
 
-func parseProtoDir(dir string) (map[string]*desc.MessageDescriptor, error) {
+func parseProtoDir(dir string, extra ...string) (map[string]*desc.MessageDescriptor, error) {
 	ents, _ := os.ReadDir(dir)
 	var files []string
 	for _, e := range ents {
@@ -105,7 +105,7 @@ func parseProtoDir(dir string) (map[string]*desc.MessageDescriptor, error) {
 		}
 	}
 	sort.Strings(files)
-	p := protoparse.Parser{ImportPaths: []string{dir}, LookupImport: desc.LoadFileDescriptor}
+	p := protoparse.Parser{ImportPaths: append([]string{dir}, extra...), LookupImport: desc.LoadFileDescriptor}
 	fds, err := p.ParseFiles(files...)
 	if err != nil {
 		return nil, err
